@@ -51,6 +51,33 @@ def check(ctx: Ctx) -> None:
     from .c04 import r2 as c04_r2
     ctx.shared(c04_r2, "C04.R2", "C01.R10", "a commit that raised is not reflected")
     r11(ctx)
+    # "every commit that returned success is reflected": no component outside the sanctioned owners deletes files
+    from .c09 import r3 as c09_r3
+    ctx.shared(c09_r3, "C09.R3", "C01.R12", "an unsanctioned deleter can remove the metadata / manifest / data files of an acknowledged commit")
+    r13(ctx)
+
+
+def r13(ctx: Ctx) -> None:
+    ctx.rule("C01.R13", "an ambiguous commit is never answered by doing the work again: every except-handler that an "
+             "AmbiguousCommitError can flow into (named or broad) leaves by raising on every path - no retry loop, no default, "
+             "no fall-through (the pointer write may have landed: a second attempt reflects the commit twice)", 2)
+    from .common import handler_nodes, handler_exits, judged_in_callers
+    from ..cfg import handler_classes
+    for f in sorted(ctx.prog.functions.values(), key=lambda x: x.qname):
+        if isinstance(f.node, ast.Lambda) or judged_in_callers(ctx, f):
+            continue
+        for hn in handler_nodes(ctx, f):
+            if hn.id not in ctx.cfg(f).reachable():
+                continue
+            into = ctx.eff.into_handler.get((f.qname, id(hn.ast)), set())
+            if "AmbiguousCommitError" not in into:
+                continue
+            ex = handler_exits(ctx, f, hn)
+            ok = bool(ex["raise"]) and not (ex["fallthrough"] or ex["return"] or ex["loop"])
+            ctx.ob("C01.R13", f, "handler reached by AmbiguousCommitError re-raises", hn, ok,
+                   "re-raises / converts on every path" if ok else
+                   "the handler can complete normally: the caller goes on (retries, or reports success) although the commit may "
+                   "already be durable", text=",".join(handler_classes(hn.ast)))  # type: ignore[arg-type]
 
 
 def commit_fn(ctx: Ctx) -> FunctionInfo:
